@@ -69,6 +69,13 @@ class PyEcoreValue(object):
                                      'nor generic')
         if not _isinstance(value, etype):
             raise BadValueError(value, etype, feature)
+        # the other end of a bidirectional reference must accept the owner
+        # (it can be typed by a subclass of the class declaring this end)
+        if value is not None and self.is_ref:
+            opposite = feature.eOpposite
+            if opposite is not None and opposite._eType is not None \
+                    and not _isinstance(self.owner, opposite._eType):
+                raise BadValueError(self.owner, opposite._eType, opposite)
 
     def _update_container(self, value, previous_value=None):
         if not self.is_cont:
